@@ -124,6 +124,27 @@ def run(ctx: Ctx):
         ok = bool(sinks) and all(f"call:{meth}" in full(fd.deps_of(c.args[0])) for c in sinks)
         ctx.ob("R18.2", f"{q}: writes self.content.{meth}()", f, ok, "file content is the rendering" if ok else
                "the written file is not the rendering of the table", key=f"R18.2|{q}|content")
+        # ... and the whole of it: the value handed to the writer IS the rendering, not a selection of its rows
+        from ..order import local_resolver
+        res = local_resolver(f.node)
+
+        def whole(e, depth=0):
+            if depth > 5:
+                return False
+            if isinstance(e, ast.Call) and isinstance(e.func, ast.Attribute) and e.func.attr == meth:
+                return True
+            if isinstance(e, ast.Name):
+                vals = res(e)
+                return bool(vals) and all(whole(v, depth + 1) for v in vals)
+            if isinstance(e, ast.Call) and isinstance(e.func, ast.Name) and e.func.id in ("list", "tuple") and len(e.args) == 1:
+                return whole(e.args[0], depth + 1)
+            return False
+        for c in sinks:
+            okw = whole(c.args[0])
+            ctx.ob("R18.2", f"{q}: {norm(c)[:60]} writes every row of the rendering", (f, c), okw,
+                   "the writer receives the rendering itself" if okw else
+                   f"the writer receives {norm(c.args[0])[:60]}, a selection / transformation of the rendering: rows present in one file "
+                   "format are missing or different in the other", key=f"R18.2|{q}|whole")
     # ---------------------------------------------------------------- R18.3
     tr = repo.cls("TableReport")
     tab = tr.class_attrs.get("PROPERTIES_BY_ID")
